@@ -214,8 +214,8 @@ func init() {
 					fn, _ := ev.Callee.(*types.Func)
 					if fn == put || fn == del {
 						if s.A == 2 {
-							if s.V[0] == pathsim.False {
-								c.Violate(ev.Pos, "[apply-unowned] an entry for which OwnsKey is false is applied")
+							if s.V[0] != pathsim.True {
+								c.Violate(ev.Pos, "[apply-unowned] a replayed WAL entry is applied without having established that this instance owns its key (OwnsKey): after a rescale the operator would load other operators' state from the shared WAL")
 							}
 							if fn == put && s.V[1] == pathsim.True {
 								c.Violate(ev.Pos, "[tombstone-as-put] a tombstone entry is replayed through Put")
